@@ -278,7 +278,7 @@ def run(chk):
     _FACTS = f
     g = CallGraph(f)
     ip = Interproc(f, g)
-    chk.rules = ["R-SAUCE-AFFINE", "R-SAUCE-CUT", "R-SAUCE-EXACT", "R-SAUCESTR-LEN", "R-SAUCE-WIDTH", "R-SAUCE-FLAGS"]
+    chk.rules = ["R-SAUCE-AFFINE", "R-SAUCE-CUT", "R-SAUCE-EXACT", "R-SAUCESTR-LEN", "R-SAUCE-WIDTH", "R-SAUCE-FLAGS", "R-SAUCE-COUNT"]
     chk.assumptions = ["SauceString<N, _>::append_to appends exactly N bytes provided its contents are at most N bytes (that proviso is rule R-SAUCESTR-LEN)",
                        "lengths < 2^31; 64-bit offset arithmetic does not wrap"]
     wb, rb, lb = f.bodies.get(WRITER), f.bodies.get(READER), f.bodies.get(LOADER)
@@ -552,6 +552,29 @@ def run(chk):
     if not okc:
         chk.finding("write_sauce_info|count-byte", rule="R-SAUCE-AFFINE", where="%s:%s" % (wb.file, wb.line), fn="write_sauce_info",
                     what="the comment count byte is not `comments.len() as u8` (or 0 without comments)")
+    # ------------------------------------------------------------------ R-SAUCE-COUNT: every legal number of comment lines is written
+    # where the count byte `comments.len() as u8` is computed the interval analysis must still allow 255 lines: a guard that turns
+    # away a count the format can express (`>= 255` for `> 255`) loses a legal record.  (An upper bound above 255 or none at all is
+    # the truncation direction and not this rule's business.)
+    anw = Analyzer(f, interproc=ip)
+    anw.analyze(wb, collect=False)
+    ncast = 0
+    for bi in range(wb.nblocks):
+        st = anw.res.in_states.get(bi)
+        if st is None or st.bottom:
+            continue
+        for s_ in wb.blocks[bi]["stmts"]:
+            if s_["k"] == "assign" and s_["rv"]["k"] == "cast" and is_count(web.rvalue(s_["rv"])):
+                v, _ = anw.eval_op(st.copy(), s_["rv"]["a"])
+                iv = st.val_iv(v) if v[0] in ("n", "iv") else (None, None)
+                ncast += 1
+                ok = iv[1] is None or iv[1] >= 255
+                chk.obligation(ok)
+                if not ok:
+                    chk.finding("write_sauce_info|count-limit|%s" % iv[1], rule="R-SAUCE-COUNT", where="%s:%s" % (wb.file, s_.get("line")), fn="write_sauce_info",
+                                what="where the comment count byte is computed the number of comment lines is at most %s: a record with %s..=255 comment lines, "
+                                     "which the format can express, is refused by the writer" % (iv[1], iv[1] + 1))
+    chk.cov["count_byte_casts"] = ncast
     # ================================================================== reader: sauce_header_len as a function of num_comments
     reb = ExprBuilder(rb)
     hdr = None
